@@ -276,6 +276,41 @@ pub fn run(tier: Tier, seed: u64) -> i32 {
     });
     total.merge(st);
 
+    // far beyond the enumerated scope: a chain of 400 operands, parentheses nested 150 deep, unary runs
+    {
+        let mut exprs = vec![];
+        let mut toks: Vec<String> = vec![];
+        let mut operands = vec![];
+        let mut ops = vec![];
+        for j in 0..400usize {
+            let (t, e) = operand(j % 4, if j % 5 == 0 { &[UnOp::Inv] } else { &[] });
+            toks.extend(t);
+            operands.push(e);
+            if j < 399 {
+                let op = [BinOp::Add, BinOp::Mul, BinOp::Xor, BinOp::Sub, BinOp::And, BinOp::Or, BinOp::Shl][j * 7 % 7 + 0].clone();
+                let op = if j % 11 == 0 { BinOp::Lt } else { op };
+                toks.push(op.text().into());
+                ops.push(op);
+            }
+        }
+        exprs.push(Expr::Raw(toks, Box::new(climb(operands, ops))));
+        let mut deep = bin(BinOp::Add, name("p"), lit(1));
+        for j in 0..150 {
+            deep = group(bin(if j % 2 == 0 { BinOp::Mul } else { BinOp::Sub }, deep, name(OPERANDS[j % 4])));
+        }
+        exprs.push(deep);
+        let mut un_run = name("q");
+        for j in 0..60 {
+            un_run = un(UNOPS[j % 3], un_run);
+        }
+        exprs.push(un_run);
+        let v = vals[2];
+        exprs.retain(|e| ok_under(e, &v));
+        total.witness_n("very_long_expression", exprs.len() as u64);
+        let vv = vec![v; exprs.len()];
+        batch(&mut total, 6 << 32, &exprs, &vv, "large scale: very long / deeply nested expressions");
+    }
+
     // part 3: ite is lazy; part 4: literal radixes
     let st = par_range("3+4: ite laziness cases and literal radix forms", 2, &deadline, |idx, st| {
         if idx == 0 {
@@ -336,7 +371,7 @@ pub fn run(tier: Tier, seed: u64) -> i32 {
             "reference evaluator refsem::binop/unop/climb is the oracle (i64 wrapping, shift count & 63, truncating division, MIN/-1 = MIN, MIN%-1 = 0)".into(),
             "valuations are a fixed set of 12 (4 for the unary-prefixed chains in the quick tier) chosen so that different trees give different values; values outside the boundary sets are not enumerated (DESIGN section 10)".into(),
         ],
-        required_witnesses: vec!["flat_chain", "unary_prefixed_operand", "explicit_tree", "operator_table_entry", "MIN_op_minus_one", "shift_count_outside_0_63", "ite_with_failing_or_drawing_unselected_branch", "literal_radix_form"],
+        required_witnesses: vec!["very_long_expression", "flat_chain", "unary_prefixed_operand", "explicit_tree", "operator_table_entry", "MIN_op_minus_one", "shift_count_outside_0_63", "ite_with_failing_or_drawing_unselected_branch", "literal_radix_form"],
         exhaustive_note: "all operator triples, shapes, prefixes and operand pairs listed".into(),
         e1: false,
     };
